@@ -7,7 +7,7 @@ import P2.Model.Plonk
 import P2.Props.C05
 namespace P2.Props.C03
 open P2 P2.Plonk P2.Merkle
-open P2.Fri (Verdict firstBad digestHasher log2Strict)
+open P2.Fri (Verdict firstBad digestHasher)
 
 /-- **Acceptance is the conjunction of every check.** `verify` accepts iff the shape is valid,
 the quotient identity holds at ζ for the challenges *recomputed from the statement and the proof*,
@@ -57,20 +57,9 @@ theorem shape_accept_lengths (c : CommonData) (pp : ProofWithPis)
       cap.length = 2 ^ c.friParams.config.capHeight := by
     intro cap hc
     unfold capCheck at hc
-    cases hl : log2Strict cap.length with
-    | none => simp [hl] at hc
-    | some k =>
-      simp only [hl] at hc
-      by_cases hk : k = c.friParams.config.capHeight
-      · unfold log2Strict at hl
-        by_cases h0 : cap.length = 0
-        · simp [h0] at hl
-        · simp only [h0, if_false] at hl
-          by_cases hp : 2 ^ Nat.log2 cap.length = cap.length
-          · simp only [hp, if_true, Option.some.injEq] at hl
-            rw [← hk, ← hl]; exact hp.symm
-          · simp [hp] at hl
-      · simp [hk] at hc
+    by_cases hk : cap.length = 2 ^ c.friParams.config.capHeight
+    · exact hk
+    · simp [hk] at hc
   have lenOk : ∀ (a b : Nat) (st : String), lenCheck (a == b) st = .accept → a = b := by
     intro a b st hb
     unfold lenCheck at hb
